@@ -52,6 +52,8 @@ FAULTS = [
     "release:row-with-blank-position", "release:all-half-a-step-before-start", "time:dt-zero-iso", "time:dt-zero-list", "time:dt-negative",
     # a mandatory section missing from a configuration DICTIONARY handed to Model directly (scripts, notebooks), not through a file
     "model-dict:no-tracker", "model-dict:no-time", "model-dict:no-forcing", "model-dict:no-release", "model-dict:no-output",
+    # a plug-in file that an earlier run of this process loaded and that has been removed since: a missing file like any other
+    "plugin:file-removed-after-an-earlier-run",
 ]
 PACKED_CONTROL = "control:packed-time-coordinate"  # the same packed files covering the window: must run
 NOLL = "release:lon-lat-only+grid-without-ll2xy"
@@ -199,6 +201,11 @@ def build(base, fault, d):
     elif fault == "release:all-before-start+stray-frequency":
         conf["release"]["release_frequency"] = 2 * DT  # left over in a discrete set-up
     conf["ibm"] = dict(module=rec)
+    if fault == "plugin:file-removed-after-an-earlier-run":
+        import shutil
+
+        shutil.copy(rec, d / "my_ibm.py")
+        conf["ibm"] = dict(module=str(d / "my_ibm"))  # given without .py
     conf["output"] = dict(filename=str(d / "out.nc"), output_period=DT, instance_variables={v: world.ovar("i4" if v == "pid" else "f8") for v in ("pid", "X", "Y", "Z")})
     # ---- configuration-level faults
     if fault == "time:no-start":
@@ -291,6 +298,13 @@ def run_one(base, fault, d=None):
                 raise drive.RunFailed("SystemExit", repr(e.code)) from e
             except Exception as e:
                 raise drive.RunFailed(type(e).__name__, str(e)[:300]) from e
+        elif fault == "plugin:file-removed-after-an-earlier-run":
+            drive.run_main_file(path)  # the earlier run, with the plug-in in place: must run (a failure here is reported as such)
+            for f_ in list(d.glob("out*.nc")):
+                f_.unlink()
+            (d / "my_ibm.py").unlink()
+            events().clear()
+            drive.run_main_file(path)
         else:
             drive.run_main_file(path)
     except drive.RunFailed as e:
@@ -318,7 +332,7 @@ def run_subprocess(base):
     for f in base["faults"]:
         todo += [NOLL_CONTROL, f] if f == NOLL else [PACKED_CONTROL, f] if f == "forcing:ends-early+packed-time-coordinate" else [f]
     for fault in todo:
-        if fault.startswith("model-dict:"):
+        if fault.startswith("model-dict:") or fault.startswith("plugin:file-removed"):
             continue  # not expressible on the command line
         if (fault.startswith("release:all-before-start") or fault == "release:all-half-a-step-before-start") and b["cont"]:
             continue
